@@ -142,7 +142,10 @@ def run_pipeline(tier, replay_behaviours=None):
         for b in bs:
             bid += 1
             kind, _cfg, sessname, settle = GEN[fam] if fam in GEN else ("replay", None, b.get("sessname", "pair"), b.get("settle", False))
-            rec = dict(id=bid, family=fam, settle=settle, sess=b.get("sess") or SESS[sessname], hist=b["hist"], msgs=b["msgs"])
+            # attack suffix: after an adversarial behaviour the attacker seals data under every handshake it owns and
+            # hands it to every session (the monitors judge; no model prediction applies to the suffix)
+            probe = b.get("probe", (not settle) and not fam.startswith("weak_"))
+            rec = dict(id=bid, family=fam, settle=settle, probe=probe, sess=b.get("sess") or SESS[sessname], hist=b["hist"], msgs=b["msgs"])
             allb[bid] = rec
             # three trace files of similar size so that validation runs as three TLC processes
             groups.setdefault(bid % 3, []).append(rec)
@@ -225,7 +228,7 @@ def check(pid, tier, replay=None):
     if replay:
         with open(replay) as f:
             rp = json.load(f)["payload"]["behaviour"]
-        rb = {rp["family"]: [dict(hist=rp["hist"], msgs=rp["msgs"], sess=rp["sess"], settle=rp["settle"])]}
+        rb = {rp["family"]: [dict(hist=rp["hist"], msgs=rp["msgs"], sess=rp["sess"], settle=rp["settle"], probe=rp.get("probe", False))]}
     extra = None
     if pid == "C02" and rb is None:
         # C02 spans session rotation: the channel pipeline runs too (AtMostOnce / Authentic across rekeys and restarts)
